@@ -24,14 +24,8 @@ var c02GuardExceptions = map[string]string{
 	"idx:(*profile.Profile).postDecode:var []*profile.Location[low=len(profile.Sample.locationIDX)]":  "same invariant as the line above",
 	"idx:(*profile.Profile).postDecode:profile.Sample.Location[φ+1]":                                  "s.Location was just set to locBuffer[:len(s.locationIDX)] and the loop ranges over s.locationIDX",
 	"idx:(*profile.Profile).postDecode:profile.Sample.Location[φ+1]#2":                                "s.Location was just set to locBuffer[:len(s.locationIDX)] and the loop ranges over s.locationIDX",
-	"idx:profile.parseCPUSamples:make[φ]":                                                             "addrs is make([]uint64, nstk) and the loop runs for i < int(nstk)",
 	"idx:profile.removeLoggingInfo:param#0 string[low=*&call FindStringIndex[…]]":                     "regexp contract: a non-nil FindStringIndex result m satisfies 0 <= m[0] <= m[1] <= len(line)",
-	"idx:profile.isProfileType:*&param#1 [][]string[…][φ+1]":                                          "the loop over st runs only after len(st) == len(t) was checked",
-	"idx:profile.init$38:profile.Profile.stringTable[0]":                                              "reached only after decodeStrings returned nil, which appended one element to the table",
-	"idx:profile.init$5:profile.Sample.labelX[len(profile.Sample.labelX)]":                            "n is the length before the append of one element in the preceding statement, so n < len afterwards",
-	"idx:profile.init$23:profile.Location.Line[len(profile.Location.Line)]":                           "n is the length before the append of one element in the preceding statement, so n < len afterwards",
 	"idx:(*profile.Profile).preEncode:profile.Profile.stringTable[*ssa.Next#2]":                       "stringTable is made with len(strings) and every value of the strings map is an index handed out by addString as len(strings) at insertion, hence < len(strings)",
-	"idx:profile.parseCPUSamples:make[0]":                                                             "evaluated only when nstk == 1 (short-circuit &&), and addrs has nstk elements",
 	"idx:profile.parseThread:profile.Sample.Value[0]":                                                 "every sample of a thread profile is appended by parseThread itself with Value: []int64{1}",
 }
 
